@@ -45,8 +45,11 @@ Log(op, s, ok, exc, val) == h' = Append(h, [op |-> op, s |-> s, ok |-> ok, exc |
 \* graph.scale()
 GetScale == Op /\ g' = g /\ Log("getscale", NoneR, TRUE, "", g.scale)
 \* graph.scale(s), ScaleTo(s)(graph), scale_to(s, [graph])
-Scale == Op /\ \E s \in Targets :
-           LET r == GraphScaleOp(g, s) IN g' = r.g /\ Log("scale", s, r.ok, r.exc, NoneR)
+\* allow: scale_to / GroupScale with allow_zero_scale = allow_unknown_scale = True ("the corresponding errors are
+\* ignored and the structure remains unscaled"); logged as ok with exc = "skipped"
+Scale == Op /\ \E s \in Targets : \E allow \in (IF IsNone(g.scale) \/ RIsZero(g.scale) THEN BOOLEAN ELSE {FALSE}) :
+           LET r == GraphScaleOp(g, s) IN
+           g' = r.g /\ Log("scale", s, IF allow THEN TRUE ELSE r.ok, IF allow THEN "skipped" ELSE r.exc, NoneR)
 Next == GetScale \/ Scale
 Spec == Init /\ [][Next]_vars
 
@@ -60,7 +63,7 @@ IsLastOrItsError(x, k) == k = x.dim \/ (k > x.dim /\ x.errs[k - x.dim].c = x.dim
 \* rescaling to s multiplies exactly the last coordinate and its error columns by s / old scale,
 \* leaves the other coordinates (and their errors) untouched and makes the scale s
 ScaleExact == [][(IsOp("scale") /\ Known(g)) =>
-                  /\ L.ok /\ g'.scale = L.s /\ g'.dim = g.dim /\ g'.errs = g.errs
+                  /\ L.ok /\ L.exc = "" /\ g'.scale = L.s /\ g'.dim = g.dim /\ g'.errs = g.errs
                   /\ Len(g'.cols) = Len(g.cols)
                   /\ \A k \in 1..Len(g.cols) :
                        /\ Len(g'.cols[k]) = Len(g.cols[k])
@@ -70,10 +73,12 @@ ScaleExact == [][(IsOp("scale") /\ Known(g)) =>
                             ELSE g'.cols[k][j] = g.cols[k][j]]_vars
 \* ... and raises LenaValueError for a zero or unknown scale
 UnknownScaleRaises == [][(IsOp("scale") /\ ~Known(g)) =>
-                          ~L.ok /\ L.exc = "LenaValueError" /\ g' = g]_vars
+                          /\ g' = g
+                          /\ \/ (~L.ok /\ L.exc = "LenaValueError")
+                             \/ (L.ok /\ L.exc = "skipped")]_vars
 GetScalePure == [][IsOp("getscale") => g' = g /\ L.val = g.scale]_vars
 \* rescaling back restores the graph (s / old * old / s = 1)
-RoundTrip == [][(IsOp("scale") /\ L.ok /\ Len(h) > 0 /\ h[Len(h)].op = "scale" /\ h[Len(h)].ok /\ Len(h) = 1
+RoundTrip == [][(IsOp("scale") /\ L.ok /\ L.exc = "" /\ Len(h) > 0 /\ h[Len(h)].op = "scale" /\ h[Len(h)].ok /\ h[Len(h)].exc = "" /\ Len(h) = 1
                  /\ L.s = g0.scale) => g' = g0]_vars
 
 Emitted == (n = MaxOps) => PrintT(ToJson([start |-> g0, ops |-> h]))
